@@ -19,7 +19,7 @@ Ress == { Q(1,1000), Q(1,10) }
 Pos2 == {R0, Q(2,1), Q(1,3)}            \* non-negative parameter values including 0
 Amp == {Q(2,1), Q(-3,2)}
 SrcW == {R0, R1, Q(2,1)}
-PerW == {R1, Q(1,2)}
+PerW == {R1, Q(1,2), Q(1,10), Q(7,10)}          \* incl. fundamentals that are not binary-exact (n * w0 / w0 is then not exactly n in binary64)
 WaveSet == IF Tier = "quick" THEN {"rect", "saw", "cos"} ELSE Waves
 
 Passive ==
@@ -52,7 +52,8 @@ WsFor(c, r) ==
       ELSE IF c.kind \in {"dc_voltage_source", "dc_current_source"} THEN {x \in base \cup near(R0) : RLe(R0, x)}
       ELSE IF c.kind \in {"periodic_voltage_source", "periodic_current_source"}
            THEN {RMul(RI(n), c.v.w) : n \in 0..5} \cup {RAdd(RMul(RI(n), c.v.w), RMul(Q(1,2), r)) : n \in {1, 3}}
-                \cup {RAdd(RMul(RI(n), c.v.w), RMul(Q(2,1), r)) : n \in {0, 2}} \cup {Q(1,4), Q(7,4)}
+                \cup {RAdd(RMul(RI(n), c.v.w), RMul(Q(2,1), r)) : n \in {0, 2}}
+                \cup (IF c.v.w \in {R1, Q(1,2)} THEN {Q(1,4), Q(7,4)} ELSE {RMul(Q(1,4), c.v.w), RMul(Q(7,4), c.v.w)})      \* off every harmonic
       ELSE {R0, R1, Q(1,2), Q(10,1)}
 
 \* two steps, so that TLC's workers share the enumeration: pick the component, then the rest
@@ -60,6 +61,8 @@ Init == /\ comp \in Passive \cup Sources \cup Periodic
         /\ res = R0 /\ w = R0 /\ pos = 0 /\ gnd = 0
 Next == /\ pos = 0
         /\ res' \in Ress
+        \* (harmonics are only distinguishable when the resolution is finer than a quarter of the fundamental)
+        /\ (comp.kind \in {"periodic_voltage_source", "periodic_current_source"} => RLt(RMul(RI(4), res'), comp.v.w))
         /\ w' \in WsFor(comp, res')
         /\ pos' \in 1..3
         /\ gnd' \in {0, 1, 4}           \* 0: no ground component; 1: ground listed first; 4: ground listed last
